@@ -251,7 +251,13 @@ pub fn judge(c: &Case, st: &mut Stats) -> Verdict {
         let pad = if unit.starts_with("PROXY") { "" } else { &"abc"[..(d / 24 % 4) as usize] };
         let mut with = s.clone();
         with.push_str(pad);
-        while with.len() < 260 {
+        // half of the payloads are long (the buffer is far larger than any line), half are a single short unit (line plus
+        // payload may stay below 107 bytes and end in CRLF themselves)
+        if d / 96 % 2 == 0 {
+            while with.len() < 260 {
+                with.push_str(unit);
+            }
+        } else {
             with.push_str(unit);
         }
         let want_text = s.as_str();
@@ -262,6 +268,17 @@ pub fn judge(c: &Case, st: &mut Stats) -> Verdict {
         match imp::v1_bytes(with.as_bytes()) {
             Ok(Ok(h)) if imp::addr1(&h.addresses) == *a && h.header == want_text && h.to_string() == want_text => {}
             other => return fail("roundtrip-with-payload:try_from(&[u8])", format!("Ok with {:?} and header text == the line", a), imp::short(&format!("{:?}", other))),
+        }
+        // the byte routes also with a payload that is not text (the start of a TLS handshake, a v2 header)
+        let mut raw = s.as_bytes().to_vec();
+        raw.extend_from_slice(if d / 192 % 2 == 0 { b"\x16\x03\x01\x02\x00\x01\x00\x01\xfc\x03\x03\x9a\xff" } else { b"\r\n\r\n\0\r\nQUIT\n\x21\x11\x00\x0c\xc0\x00\x02\x01\xc6\x33\x64\x07\xc8\x22\x01\xbb" });
+        match imp::v1_bytes(&raw) {
+            Ok(Ok(h)) if imp::addr1(&h.addresses) == *a && h.header == want_text && h.to_string() == want_text => {}
+            other => return fail("roundtrip-with-binary-payload:try_from(&[u8])", format!("Ok with {:?} and header text == the line", a), imp::short(&format!("{:?}", other))),
+        }
+        match imp::auto(&raw) {
+            Ok(HeaderResult::V1(Ok(h))) if imp::addr1(&h.addresses) == *a && h.header == want_text => {}
+            other => return fail("roundtrip-with-binary-payload:HeaderResult::parse", format!("V1(Ok) with {:?}", a), imp::short(&format!("{:?}", other))),
         }
         match imp::v1_fromstr_header(&with) {
             Ok(Ok(h)) if imp::addr1(&h.addresses) == *a && h.header == want_text => {}
